@@ -191,6 +191,32 @@ def rand_pag(rng, n):
     return C.rand_graph(rng, n, C.PAG_STATES[1:], weights=w, density=dens)
 
 
+def chunks(it, k):
+    buf = []
+    for x in it:
+        buf.append(x)
+        if len(buf) >= k:
+            yield buf
+            buf = []
+    if buf:
+        yield buf
+
+
+def exh4_queries():
+    """4-node exhaustive stream: every ordered pair x cutoff None,0..4, singleton-set targets, and the set of
+    all other nodes x cutoff None,1,2,3"""
+    Q = []
+    for s in range(4):
+        for t in range(4):
+            if s != t:
+                Q += [[s, [t], False, c] for c in [None, 0, 1, 2, 3, 4]]
+                Q.append([s, [t], True, None])
+        others = [v for v in range(4) if v != s]
+        Q += [[s, others, True, c] for c in (None, 1, 2, 3)]
+        Q += [[s, others[:2], True, c] for c in (None, 2)]
+    return Q
+
+
 def gen_cases(ctx):
     tier, rng = ctx["tier"], ctx["rng"]
     for n in (1, 2, 3):
@@ -200,8 +226,9 @@ def gen_cases(ctx):
                 yield graph_case(g, "ADMG", "exh%d-admg" % n)
     fams = C.Labels.FAMILIES
     if tier == "thorough":
+        q4 = exh4_queries()
         for g in C.enum_graphs(4, C.PAG_STATES):
-            yield graph_case(g, "PAG", "exh4", P=[])
+            yield graph_case(g, "PAG", "exh4", Q=q4, P=[])
         n4, n5, n6, n7 = 3000, 6000, 3000, 300
     else:
         n4, n5, n6, n7 = 1500, 500, 150, 0
@@ -354,35 +381,42 @@ def run(ctx):
                       "queries whose source belongs to the target set are outside the property: compared with the model only",
                       "label->index bijection and canonicalisation in harness/common.py, harness/c16.py"]
     corpus = [dict(c, src="corpus") for c in C.load_corpus(PID)]
-    cases = corpus + list(gen_cases(ctx))
-    specs = lean_eval(cases, "spec")
-    models = lean_eval(cases, "model")
-    gots = C.pmap(impl, cases, chunksize=64)
     bad = []
-    for case, got, spec, model in zip(cases, gots, specs, models):
-        nq = len(case.get("Q", [])) + len(case.get("P", [])) + len(case.get("S", []))
-        ev.evaluations += nq
-        ev.count("src:" + case["src"])
-        ev.count("queries:sdp", len(case.get("Q", [])))
-        ev.count("queries:issdp", len(case.get("P", [])))
-        ev.count("queries:possible", 2 * len(case.get("S", [])))
-        ev.count("issdp:true", spec["is"].count("T"))
-        ev.count("sdp:nonempty", sum(1 for a in spec["sdp"] if a))
-        k = nontrivial_queries(case, spec)
-        ev.count("sdp:cutoff-branch-hit", k)
-        rejected = any(a != b for a, b in zip(spec["sdp"], spec["sdp"][1:]))
-        if len(ev.samples) < 6 and case["src"].startswith("rnd"):
-            ev.samples.append({k2: case[k2] for k2 in ("g", "cls", "fam", "src")} | {"Q": case["Q"][:4], "P": case["P"][:4], "S": case["S"][:2]})
-        if k and rejected:
-            ev.nontrivial.add(C.hashlib.sha1(C.json.dumps([case["g"], case["cls"]], sort_keys=True).encode()).hexdigest()[:16])
-        for mv in model_vs_spec(case, spec, model):
-            out.proof_breaks.append("Lean model and Lean oracle disagree (%s) on %s" % (mv[0], C.g_line(case["g"])))
-        d = diffs(case, got, spec, model)
-        if d:
-            bad.append((case, d))
+    ngraphs = 0
+    first_case = None
+    for cases in chunks(itertools.chain(corpus, gen_cases(ctx)), 12000):
+        ngraphs += len(cases)
+        first_case = first_case or cases[0]
+        specs = lean_eval(cases, "spec")
+        models = lean_eval(cases, "model")
+        gots = C.pmap(impl, cases, chunksize=64)
+        for case, got, spec, model in zip(cases, gots, specs, models):
+            nq = len(case.get("Q", [])) + len(case.get("P", [])) + len(case.get("S", []))
+            ev.evaluations += nq
+            ev.count("src:" + case["src"])
+            ev.count("queries:sdp", len(case.get("Q", [])))
+            ev.count("queries:issdp", len(case.get("P", [])))
+            ev.count("queries:possible", 2 * len(case.get("S", [])))
+            ev.count("issdp:true", spec["is"].count("T"))
+            ev.count("sdp:nonempty", sum(1 for a in spec["sdp"] if a))
+            k = nontrivial_queries(case, spec)
+            ev.count("sdp:cutoff-branch-hit", k)
+            rejected = any(a != b for a, b in zip(spec["sdp"], spec["sdp"][1:]))
+            if len(ev.samples) < 6 and case["src"].startswith("rnd"):
+                ev.samples.append({k2: case[k2] for k2 in ("g", "cls", "fam", "src")} | {"Q": case["Q"][:4], "P": case["P"][:4], "S": case["S"][:2]})
+            if k and rejected:
+                ev.nontrivial.add(C.hashlib.sha1(C.json.dumps([case["g"], case["cls"]], sort_keys=True).encode()).hexdigest()[:16])
+            for mv in model_vs_spec(case, spec, model):
+                out.proof_breaks.append("Lean model and Lean oracle disagree (%s) on %s" % (mv[0], C.g_line(case["g"])))
+            d = diffs(case, got, spec, model)
+            if d and len(bad) < 50:
+                bad.append((case, d))
+        if bad:
+            break
+    cases = [first_case] if first_case else []
     if not ev.samples and cases:
         ev.samples.append({k2: cases[0][k2] for k2 in ("g", "cls", "src")})
-    ev.extra["graphs"] = len(cases)
+    ev.extra["graphs"] = ngraphs
     ev.extra["exhaustive_part"] = "every labelled PAG on <=3 nodes (quick) / <=4 nodes (thorough) with every query listed in `rule`"
     if bad:
         # one violation per function kind, each shrunk
@@ -399,7 +433,7 @@ def run(ctx):
             out.violation(small, {"kind": fn, "impl": got, "spec": spec, "model": model,
                                   "first_seen": {"impl": gi, "spec": sp, "model": mo, "case": small0},
                                   "lean_request": lean_lines(small, "spec"),
-                                  "graphs_with_disagreement": len(bad)})
+                                  "graphs_with_disagreement_at_least": len(bad)})
 
 
 def replay(ctx, payload):
